@@ -185,3 +185,12 @@ class G3:
 class G3Class:
     def __init__(self, tags: Optional[List[int]], n: int = 1, lit: Optional[Dict[str, int]] = None):
         self.tags, self.n, self.lit = tags, n, lit
+
+
+from jsonargparse.typing import PositiveFloat  # noqa: E402  (the analysed tree is first on sys.path by the time this module is imported)
+
+
+@dataclass
+class Limits:
+    lim: PositiveFloat = 1.0
+    n: int = 0
